@@ -1,5 +1,6 @@
+import QuicModel.Drivers.RecvFlow
 import QuicModel.Drivers.VarInt
 namespace Quic.Drivers
 def all : List Component :=
-  VarInt.components
+  RecvFlow.components ++ VarInt.components
 end Quic.Drivers
